@@ -112,6 +112,11 @@ class Schema:
                 if fold(k) in {fold(x) for x in fields}:
                     continue
             fields[k] = node
+            if node[0] in ("obj", "listobj") and rng.random() < 0.1:
+                # self-named key ({"config": {"config": 1}}): the nested class and one of its own fields derive from one key
+                child = self.shapes.get(node[1])
+                if child is not None and child is not fields and fold(k) not in {fold(x) for x in child}:
+                    child[k] = self.new_node(depth + 2, scalar_only=True)
         if not fields:
             fields[self.pick_keys(1)[0]] = ("int",)
         return sid
@@ -442,8 +447,13 @@ def keys_case(rng, styles=None, depth=2):
             r = rng.random()
             if d > 0 and r < 0.35:
                 o[k] = obj(d - 1)
+                if rng.random() < 0.15:
+                    o[k].setdefault(k, rng.choice([1, "s", [], None]))  # self-named key: class and one of its fields from one key
             elif d > 0 and r < 0.5:
                 o[k] = [obj(d - 1) for _ in range(rng.randint(1, 2))]
+                if rng.random() < 0.15:
+                    for c in o[k]:
+                        c.setdefault(k, rng.choice([1, "s", [], None]))
             elif r < 0.6:
                 o[k] = rng.choice([["a", "b"], [1, 2], []])
             else:
